@@ -25,8 +25,8 @@ fn gap_past_record(input: &BwInput, levels: &[(u32, Vec<ZRec>)]) -> bool {
             for w in vals.windows(2) {
                 if w[1].s > w[0].e {
                     // record holding the last base of w[0]
-                    if let Some(z) = crecs.iter().find(|z| z.start < w[0].e && w[0].e <= z.start + res) {
-                        let rec_end = z.start + res;
+                    if let Some(z) = crecs.iter().find(|z| z.start < w[0].e && w[0].e as u64 <= z.start as u64 + *res as u64) {
+                        let rec_end = z.start.saturating_add(*res);
                         if w[0].e < rec_end && w[1].s > rec_end {
                             return true;
                         }
